@@ -299,7 +299,21 @@ func (c *lockCase) answer(m *utreexo.MapPollard, kind string, a *queryArgs) (out
 		p, f := m.GetLeafPosition(a.leaf)
 		return fmt.Sprintf("%d %v", p, f)
 	case "GetLeafHashPositions":
-		return fmt.Sprint(m.GetLeafHashPositions([]Hash{a.leaf, a.leaf2}))
+		// a large request (the same two hashes 750 times): the answer is one snapshot, however
+		// the implementation chooses to go through the request
+		req := make([]Hash, 0, 1500)
+		for i := 0; i < 750; i++ {
+			req = append(req, a.leaf, a.leaf2)
+		}
+		got := m.GetLeafHashPositions(req)
+		uniform := len(got) == len(req)
+		for i := 2; uniform && i < len(got); i++ {
+			uniform = got[i] == got[i-2]
+		}
+		if uniform {
+			return fmt.Sprint(got[:2], " x750")
+		}
+		return fmt.Sprint(got)
 	case "GetHash":
 		return sy.T(m.GetHash(a.pos))
 	case "GetMissingPositions":
@@ -392,7 +406,11 @@ func (r *Runner) replayLockCase(l *Line) lineResult {
 		// goroutines of an earlier case are stuck in the library: nothing more can be run in this process
 		return lineResult{skipped: "skipped after a deadlock"}
 	}
-	scheds := r.loadSchedules()
+	effectOnly := optVal(r.extra, "effectonly", "") == "1"
+	var scheds []lockSchedule
+	if !effectOnly {
+		scheds = r.loadSchedules()
+	}
 	stressEvery := 0
 	fmt.Sscan(optVal(r.extra, "stress", "0"), &stressEvery)
 	w := NewWorld(r.sy, WorldCfg{})
@@ -400,7 +418,13 @@ func (r *Runner) replayLockCase(l *Line) lineResult {
 		if cat == "deadlock" {
 			lockDead.Store(true)
 		}
-		w.fails = append(w.fails, Fail{Props: []string{"C12"}, Inst: "map.part", Cat: cat, What: what, Exp: exp, Got: got, Step: len(l.Hist)})
+		props := []string{"C12"}
+		if cat == "notatomic" {
+			// a remembering verification that is not atomic leaves hashes in the forest that were
+			// verified against another state: from then on false claims are accepted (C03)
+			props = append(props, "C03")
+		}
+		w.fails = append(w.fails, Fail{Props: props, Inst: "map.part", Cat: cat, What: what, Exp: exp, Got: got, Step: len(l.Hist)})
 	}
 	hookMu.Lock()
 	defer func() {
@@ -410,6 +434,9 @@ func (r *Runner) replayLockCase(l *Line) lineResult {
 	utreexo.VerifPoint = nil
 	for _, rows := range []uint8{63, 0} {
 		for _, readOp := range []bool{false, true} {
+			if effectOnly && readOp {
+				continue
+			}
 			c := &lockCase{sy: r.sy, rows: rows, hist: l.Hist, op: *st, readOp: readOp}
 			all := append(append([]Step{}, l.Hist...), *st)
 			// sequential references: the whole-block states before and after the operation
@@ -481,7 +508,10 @@ func (r *Runner) replayLockCase(l *Line) lineResult {
 				perSite = 0
 			}
 			taken := map[int]int{}
-			off := int(lineHash(l.raw) % uint64(len(scheds)))
+			off := 0
+			if len(scheds) > 0 {
+				off = int(lineHash(l.raw) % uint64(len(scheds)))
+			}
 			for si := range scheds {
 				sc := scheds[(si+off)%len(scheds)]
 				if sc.Reader != "" {
@@ -629,7 +659,7 @@ func (r *Runner) replayLockCase(l *Line) lineResult {
 				}
 			}
 			if !readOp {
-				if dead := c.readerSchedules(r, l, scheds, n, prevN, args, ansPre, ansPost, fail, &res); dead {
+				if dead := !effectOnly && c.readerSchedules(r, l, scheds, n, prevN, args, ansPre, ansPost, fail, &res); dead {
 					res.fails = w.fails
 					return res
 				}
